@@ -226,7 +226,7 @@ def gen(tier, rng, shard, nshards):
     n = SIZES[tier]
     for i in range(n):
         dtm = S.pick(rng, DTMODES)
-        o = S.Opts(dtmode=dtm, clean=True, max_dim=int(S.pick(rng, [3, 4, 6])), exclude=LEAF_EXCLUDE, identity_dt="f4")
+        o = S.Opts(dtmode=dtm, clean=True, max_dim=int(S.pick(rng, [3, 4, 6])), exclude=LEAF_EXCLUDE, identity_dt="f4", routines=0.08)
         if rng.random() < 0.12:
             yield {"mode": "mismatch", "seed": S.seed(rng), "dtm": dtm}
         elif rng.random() < 0.3:
